@@ -15,6 +15,7 @@ import HkModel.Drive.Crash
 import HkModel.Drive.Pull
 import HkModel.Drive.Conc
 import HkModel.Drive.OpFront
+import HkModel.Drive.ConcX
 /-! `hkdriver <mode>`: reads protocol lines on stdin, answers one line per input line. -/
 open Hk
 
@@ -80,6 +81,7 @@ def main (args : List String) : IO UInt32 := do
   | ["cfgfmt"] => runPure DriveLex.processLine
   | ["leaseconc"] => runPure DriveConc.processLine
   | ["opfront"] => runPure DriveOpFront.processLine
+  | ["concx"] => runPure DriveConcX.processLine
   | ["crash"] => runPure DriveCrash.processLine
   | ["pullops"] =>
     let st ← loopPull stdin stdout {}
